@@ -565,6 +565,70 @@ Op("u_index", [ANY], lambda a, p: repr(U.normalize_index(decode_index(p["idx"]),
    api=("utils.normalize_index", "utils.sanitize_index", "utils.posify_index"))
 
 
+# error and fall-back paths that random binding with well-formed parameters never takes (a query that fails must
+# leave its operands alone just like one that succeeds)
+def p_misuse(rng, metas, objs):
+    return {"how": rng.choice(["noargs", "rank", "covidx", "angle1", "angle4", "pow_frac", "pow_mod", "idx_frac",
+                               "idx_str", "idx_many", "idx_cplx", "axis", "dtype", "hat_args", "posify", "ufunc_kw",
+                               "ufunc_at", "eq_obj"])}
+
+
+def _misuse(a, p):
+    x, how = a[0], p["how"]
+    if how == "noargs":
+        return type(x)()
+    if how == "rank":
+        return Tensor(x.array, tensor_rank=x.array.ndim + 1)
+    if how == "covidx":
+        return Tensor(x.array, covariant=[x.array.ndim + 3])
+    if how == "angle1":
+        return O.angle(x)
+    if how == "angle4":
+        return O.angle(x, x, x, x)
+    if how == "pow_frac":
+        return x ** 0.5
+    if how == "pow_mod":
+        return pow(x, 2, 3)
+    if how == "idx_frac":
+        return x[np.array([0.5])]
+    if how == "idx_str":
+        return x["a"]
+    if how == "idx_many":
+        return x[(0,) * (x.array.ndim + 1)]
+    if how == "idx_cplx":
+        return x[np.array([1j])]
+    if how == "axis":
+        return U.is_multiple(x.array, x.array, axis="last")
+    if how == "dtype":
+        return (U.is_numerical_dtype(np.dtype("U3")), U.null_space(np.array([["a", "b"]])))
+    if how == "hat_args":
+        v = np.asarray(x.array).ravel()[:3]
+        return U.hat_matrix(*v.tolist()) if v.size == 3 else U.hat_matrix(1, 2, 3)
+    if how == "posify":
+        sh = tuple(x.shape) or (1,)
+        return repr((U.posify_index(sh, tuple(-1 for _ in sh)), U.posify_index(sh[0], [0, -1]),
+                     U.posify_index(sh[0], np.array([-1])), U.posify_index(float("nan"), -1)))
+    if how == "ufunc_kw":
+        return np.add(x, 1, where=True)
+    if how == "ufunc_at":
+        return np.add.reduce(x)
+    if how == "eq_obj":
+        return (x == "abc", x == None, x == object())  # noqa: E711
+    raise AssertionError(how)
+
+
+Op("misuse", [ANY], _misuse, p_misuse, weight=2, api=())
+Op("mul_arr", [ANY, ANY], lambda a, p: a[0] * a[1].array, api="Tensor.__mul__")
+Op("dist_planes", [PL, PL], lambda a, p: O.dist(a[0], a[1]), api="dist")
+Op("dist_plane_line", [PL, LN3], lambda a, p: (O.dist(a[0], a[1]), O.dist(a[1], a[0])), api="dist")
+Op("dist_pt_phed", [PT3, PHED], lambda a, p: (O.dist(a[0], a[1]), O.dist(a[1], a[0])), api="dist")
+Op("u_matmul_adj_b", [SQUARE, SQUARE], lambda a, p: U.matmul(a[0].array, a[1].array, adjoint_b=True),
+   api="utils.matmul")
+Op("polytope_item_kinds", [POLYTOPE], lambda a, p: [a[0][i] for i in ((Ellipsis, 0, slice(None)), (Ellipsis, slice(0, 2), slice(None)),
+                                                   (Ellipsis, slice(0, 3), slice(None)), 0)],
+   api="PolytopeTensor.__getitem__")
+
+
 def _coll_class(x):
     from geometer.curve import QuadricTensor
     from geometer.point import LineTensor, PlaneTensor, PointTensor
